@@ -145,6 +145,9 @@ Arguments Err {T E} e.
 
 (* Result::ok *)
 Definition res_ok {T E} (r : result T E) : option T := match r with Ok t => Some t | Err _ => None end.
+(* Result::map_err *)
+Definition res_map_err {T E F} (f : E -> F) (r : result T E) : result T F :=
+  match r with Ok t => Ok t | Err e => Err (f e) end.
 (* the std parsers above answer Err as [None]; the error value is not modelled *)
 Definition res_of_opt {T} (o : option T) : result T unit := match o with Some t => Ok t | None => Err tt end.
 
@@ -156,6 +159,14 @@ Definition pop_front {A} (l : list A) : list A * option A :=
    a slice is kept as bytes (only from_str_radix reads it) *)
 Definition str_len (w : list N) : N := N.of_nat (length (str_bytes w)).
 Definition str_slice_cp (w : list N) (lo hi : N) : option (list N) := str_slice (str_bytes w) lo hi.
+(* str::split_at(mid) = (&s[..mid], &s[mid..]): panics when mid is past the end or off a char boundary, like
+   slicing; [str_split_at] on the bytes (a piece of a sliced / split str), [str_split_at_cp] on the code points *)
+Definition str_split_at (b : list N) (mid : N) : option (list N * list N) :=
+  match str_slice b 0 mid, str_slice b mid (N.of_nat (length b)) with
+  | Some l, Some r => Some (l, r)
+  | _, _ => None
+  end.
+Definition str_split_at_cp (w : list N) (mid : N) : option (list N * list N) := str_split_at (str_bytes w) mid.
 (* str::strip_prefix(char) *)
 Definition str_strip_prefix (w : list N) (c : N) : option (list N) :=
   match w with
